@@ -6,6 +6,7 @@ import os
 import random
 import time
 
+import codec
 import gens
 import kv
 
@@ -46,7 +47,8 @@ class HistProp:
     implementation on generated histories  +  the Spec.v checkers evaluated on the implementation output"""
 
     def __init__(self, pid, profile, probes, quick=300, thorough=6000, rule='', nontrivial=None,
-                 assumptions=None, extra_cases=None, final_ops=('stat',)):
+                 assumptions=None, extra_cases=None, final_ops=('stat',), extra=None):
+        self.extra = extra
         self.pid, self.profile, self.probes = pid, profile, probes
         self.nq, self.nt = quick, thorough
         self.rule, self.nontrivial = rule, nontrivial
@@ -106,7 +108,17 @@ class HistProp:
         nob, ndis, axioms, thlog = kv.check_theorems(pid)
         violations = 0
         verdict_lines = []
-        if unknown:
+        extra_cov = {}
+        if self.extra and not args.replay:
+            xv, extra_cov = self.extra(pid, tier, seed)
+            for kind, content in xv[:1]:
+                path = kv.write_replay(pid, kind, content)
+                verdict_lines.append('VIOLATION property=%s replay=%s%s' % (
+                    pid, path, '' if kind == 'P' else ' no-failing-input-found'))
+            violations += len(xv)
+        if verdict_lines:
+            pass
+        elif unknown:
             f = unknown[0][0]
             ops = byname[f['case']]
             small = kv.shrink(ops, self.still_fails('p', f['clause'])) if len(ops) > 3 else ops
@@ -166,6 +178,7 @@ class HistProp:
             property_checker_evaluations_on_impl_output=nchecked,
             property_checker_failures=len(mine), known_finding_hits=len(known_hits),
             input_distribution=stats, corpus_cases=len(load_corpus(pid)))
+        cov.update(extra_cov)
         kv.write_evidence(pid, tier, seed, cov, self.assumptions, time.time() - t0, violations)
         for l in verdict_lines:
             print(l)
@@ -400,7 +413,8 @@ reg(HistProp('C12', cfg_c12, probes_c12, quick=500, thorough=15000,
                   'DeleteMulti, scan after each; non-trivial as C01', nontrivial=has_multi_layout))
 reg(HistProp('C13', cfg_c01, probes_c13, quick=300, thorough=8000,
              rule='log-level half of C13: after every op Stat vs live count, Stat size vs sum of file sizes on disk, Size(m); '
-                  'the codec half is the byte-level run (see coverage.codec)', nontrivial=has_multi_layout))
+                  'the codec half is the byte-level run (see coverage.codec)', nontrivial=has_multi_layout,
+             extra=codec.c13_extra))
 reg(HistProp('C15', cfg_c15, probes_c15, quick=400, thorough=12000,
              rule='Find*/Trim*Multi (and single-segment Trim*) with bounds below/inside/above the live range; scan after each; '
                   'non-trivial as C01', nontrivial=has_multi_layout))
